@@ -269,7 +269,7 @@ macro_rules! engine_spec {
 }
 
 pub fn all_ids() -> Vec<&'static str> {
-    vec!["C01", "C02", "C03", "C04", "C05", "C06", "C07", "C08", "C09", "C10", "C11", "C13", "C15", "C16", "C17", "C18"]
+    vec!["C01", "C02", "C03", "C04", "C05", "C06", "C07", "C08", "C09", "C10", "C11", "C13", "C14", "C15", "C16", "C17", "C18"]
 }
 
 pub fn spec(id: &str) -> Option<PropSpec> {
@@ -418,6 +418,21 @@ pub fn spec(id: &str) -> Option<PropSpec> {
             exhaustive: Some(crate::c18::exhaustive_c18),
             assumptions: &["symmetric_fold is the public entry point; the crate-private MergeOnceWith is reached only through incr_merge"],
             both_builds_quick: false,
+            abort_is_violation: false,
+        },
+        "C14" => PropSpec {
+            id: "C14",
+            level: "exploration",
+            rule: "cases = histories over an expert 'dynamic sum' (dependency multiset chosen by a control variable, added/removed from the function of a child, every dependency with a change callback) or an expert bind/join, with children that are vars, a map, a bind's main node, a bind-created (invalidatable) node, shared and duplicate children; actions: write inputs, switch the bind, change the dependency set, request make_stale / invalidate, export the bind's current inner node, observe/unobserve; oracle = reference sum / selected child, callback coherence checked inside the recompute function, validity rule, at most one recompute per stabilise and exactly one after make_stale; non-trivial = a dependency was added or removed after the node's first recompute; distinct = distinct decoded history",
+            cases: [300_000, 8_000_000],
+            len: [160, 400],
+            run: crate::c14::run_c14,
+            exhaustive: None,
+            assumptions: &[
+                "dependencies are added/removed only from the function of a child of the expert node (documented rule)",
+                "an expert node is invalid iff it still has an invalid dependency at the end of a stabilise in which it is observed, or invalidate was called (documented rule)",
+            ],
+            both_builds_quick: true,
             abort_is_violation: false,
         },
         _ => return None,
